@@ -93,6 +93,16 @@ CLAIMS = {
          "unsubscribe' and compared with the model. On the pinned tree throttle with a trailing edge delivered after unsubscribe (fixed, "
          "50c4f28). PARTIAL: the _threads clause (lock-level interleavings of an unsubscribing with an emitting thread) is not decided here; "
          "share()/ref_count is decided under C11.", "DESIGN.md section 5 C02"),
+ "C17": ("Theorems: C17_closed_sound (every scheduler-using operator / time source, every reachable state: is_closed() = true implies no "
+         "subscriber call under any continuation); for the subscription algebra under EVERY history of append / unsubscribe / is_closed / leaf "
+         "termination: C17_late_additions (a leaf appended to an unsubscribed composite is torn down at once), C17_algebra_closed_sound "
+         "(closed implies every held leaf dead), C17_closed_stable (closed stays closed except for an append to a never-unsubscribed "
+         "composite) and C17_monotone_refuted (that exception exists: an empty MultiSubscription reports closed and is re-opened by append: "
+         "KNOWN FINDING C17-multi-reopen). On the pinned tree ZipSubscription::is_closed looked at one half only and MultiSubscription::append "
+         "dropped late additions: both fixed (b95a8c5, b095778). Each run executes all composite histories <= 4 operations (22 kinds) on "
+         "MultiSubscription/ZipSubscription and their _threads forms, and is_closed() sampled after every label on 12 timed operators, judged by "
+         "the extracted predicates alg_ok / closed_sound_ok and compared with the model. PARTIAL: ref-count and finalizer subscriptions are "
+         "decided under C11 / C15.", "DESIGN.md section 5 C17"),
 }
 
 checks = []
